@@ -46,7 +46,9 @@ def _specs(fam):
 def instances(tier, seed):
     progs = [{'fam': 'T1', 'K': 3, 'C': 2}, {'fam': 'T1', 'K': 4, 'C': 2}, {'fam': 'T2', 'K0': 3, 'K1': 2}, {'fam': 'A1', 'K': 2, 'C': 2},
              {'fam': 'K1', 'origins': ['s', 'f']}, {'fam': 'D2', 'C': 2, 'cin': 2}, {'fam': 'L1'}, {'fam': 'R2'}, {'fam': 'R4'},
-             {'fam': 'K1', 'origins': ['f', 'f']}, {'fam': 'K3', 'origins': ['f', 'f']}, {'fam': 'H1'}, {'fam': 'K4'}]
+             {'fam': 'K1', 'origins': ['f', 'f']}, {'fam': 'K3', 'origins': ['f', 'f']}, {'fam': 'H1'}, {'fam': 'K4'},
+             # enough channels for the tile rounding of the hardware models (ceil(channels / 4) changes when channels are pruned)
+             {'fam': 'D2', 'C': 5, 'cin': 2, 'pool': 'none', 'bn': False}]
     if tier == 'thorough':
         progs += [{'fam': 'T1', 'K': K, 'C': 2} for K in (1, 2, 5, 6, 7, 8, 9)] + [{'fam': 'T1', 'K': 4, 'd0': 2, 'C': 2}, {'fam': 'T1', 'K': 3, 's': 2, 'C': 2}]
         progs += [{'fam': 'A1', 'K': 2, 'C': 2, 'dw': True}, {'fam': 'K1', 'origins': ['s', 's']}, {'fam': 'K1', 'origins': ['f', 'i']}, {'fam': 'K1', 'origins': ['s', 'f', 's']},
